@@ -4,12 +4,12 @@ import subprocess
 
 from .. import mgen
 from .. import world as W
-from ..framework import result
+from ..framework import die_with_parent, result
 from ..prv import Pvt, PrvError
 
 ID = "C20"
 LEVEL = "exploration"
-RUNS = {"quick": 3000, "thorough": 30000}
+RUNS = {"quick": 3500, "thorough": 30000}
 RULE = ("seeded nOS-V / Nanos6 worlds with 1-8 physical CPUs emulated with -b: workers follow the runtimes' grammar (worker region, scheduler, "
         "task bodies, API/blocking regions around pauses, progress states Progressing/Resting/Absorbing) while threads pause, migrate and "
         "leave CPUs empty; at every event time the breakdown rows are compared with the reference per-CPU values (as a multiset, by label), "
@@ -90,7 +90,7 @@ def run_sweep(case, ctx):
         args = ["replace", str(case["maxn"]), str(case["maxv"])]
     else:
         args = ["bay", str(case["seed"]), str(case["n"]), str(case["steps"]), str(case["maxv"])]
-    p = subprocess.run([exe] + args, stdout=subprocess.PIPE, stderr=subprocess.PIPE, timeout=600)
+    p = subprocess.run([exe] + args, stdout=subprocess.PIPE, stderr=subprocess.PIPE, timeout=600, preexec_fn=die_with_parent)
     out = p.stdout.decode(errors="replace").strip()
     n = int(out.split("cases=")[1]) if "cases=" in out else case.get("steps", 1)
     info = {"sim_ns": 0, "ihash": ihash(case), "nontrivial": True, "evals": n, "size": 1,
